@@ -528,7 +528,7 @@ def run(seed, tier, prop="C11"):
     n_steps = (m["y"].shape[0] if kind == "bayes" else m["ys"].shape[0])
     res["steps"] = n_steps * K
     res["states"] = [f"{kind}:{m.get('cond_cls', m.get('trans_cls'))}:N{n_steps}"]
-    if seed % 97 == 0:
+    if (seed % 97 == 0 or (seed & 0xFFFFF) < 2):
         res["sample"] = {"seed": int(seed), "kind": kind, "shapes": {k2: list(np.shape(v)) for k2, v in m.items() if hasattr(v, "shape")},
                          "last_schedule": sch}
     res["wall"] = time.time() - t0
